@@ -196,6 +196,26 @@ Lemma main_fault_is_error : forall S D sc f,
   class S D sc (PLeaf f) = CErr /\ class S D sc (PCall (PLeaf f)) = CErr.
 Proof. intros S D sc f [H|H]; unfold class; simpl; rewrite H; split; reflexivity. Qed.
 
+(* ---------- demand ---------- *)
+
+Lemma demanded_fault_is_error : forall D sc g d i f,
+  i < d -> (fault_raw code_sites D f = RErr \/ fault_raw code_sites D f = RPanic) ->
+  run code_sites D sc g (demand d i (PCall (PLeaf f))) = RErr /\
+  class code_sites D sc (demand d i (PCall (PLeaf f))) = CErr /\
+  class code_sites D sc (PTry (demand d i (PCall (PLeaf f)))) = CCatch.
+Proof.
+  intros D sc g d i f Hi Hf. unfold demand, class.
+  destruct (i <? d) eqn:E; [|lia].
+  destruct Hf as [Hf|Hf]; cbn [run]; rewrite Hf; cbn; repeat split; reflexivity.
+Qed.
+
+Lemma undemanded_fault_invisible : forall S D sc g d i q,
+  d <= i -> run S D sc g (demand d i q) = RVal /\ class S D sc (demand d i q) = CVal /\ class S D sc (PTry (demand d i q)) = CVal.
+Proof.
+  intros S D sc g d i q Hi. unfold demand, class.
+  destruct (i <? d) eqn:E; [lia|]. repeat split; reflexivity.
+Qed.
+
 (* ---------- no fatal outcome ---------- *)
 
 Lemma existsb_map_false : forall (A : Type) (f : A -> raw) (t : raw -> bool) (l : list A),
